@@ -2,7 +2,7 @@ use std::{
     collections::{HashMap, HashSet},
     error::Error,
     path::{Path, PathBuf},
-    sync::Arc,
+    sync::{Arc, Mutex, PoisonError},
     thread,
 };
 
@@ -183,10 +183,18 @@ macro_rules! update_number_option {
     };
 }
 
+/// The long running part of a grammar analysis, to be run in a background thread.
+pub(crate) type BackgroundAnalysis = Box<dyn FnOnce() + Send>;
+
 #[derive(Debug, Default)]
 pub(crate) struct Server {
     /// Any documents the server has handled, indexed by their URL
     documents: HashMap<Uri, DocumentState>,
+
+    /// The latest version of each document, indexed by their URL.
+    /// It is shared with the background analyses, which must not publish diagnostics for a version
+    /// that has been superseded in the meantime.
+    latest_versions: Arc<Mutex<HashMap<Uri, i32>>>,
 
     /// Limit for lookahead calculation.
     /// Be careful with high values. The server can get stuck for some grammars.
@@ -219,7 +227,12 @@ impl Server {
         uri: Uri,
         version: i32,
         connection: Arc<lsp_server::Connection>,
-    ) -> anyhow::Result<()> {
+    ) -> anyhow::Result<BackgroundAnalysis> {
+        // From now on no background analysis of an older version may publish its diagnostics.
+        self.latest_versions
+            .lock()
+            .unwrap_or_else(PoisonError::into_inner)
+            .insert(uri.clone(), version);
         let file_path: PathBuf = PathBuf::from(uri.path().to_string());
         let document_state = self.documents.get_mut(&uri).unwrap();
         eprintln!("analyze: step 1 - parse");
@@ -231,17 +244,16 @@ impl Server {
         )?;
         eprintln!("analyze: step 2 - check_grammar");
         let document_state = self.documents.get(&uri).unwrap();
-        Self::check_grammar(
+        let background_analysis = self.check_grammar(
             &document_state.input,
             &file_path,
-            self.max_k,
             connection,
             uri,
             version,
             document_state.clone(),
         )?;
         eprintln!("analyze: finished");
-        Ok(())
+        Ok(background_analysis)
     }
 
     pub(crate) fn obtain_grammar_config_from_string(
@@ -253,15 +265,21 @@ impl Server {
         GrammarConfig::try_from(parol_grammar)
     }
 
+    /// Checks the grammar as far as this can be done quickly and returns the long running rest of
+    /// the analysis. The caller starts it in a background thread after it has published the result
+    /// of this check. This way the diagnostics found in the background are always published later
+    /// and can't be wiped out by the result of this check.
     pub(crate) fn check_grammar(
+        &self,
         input: &str,
         file_name: &Path,
-        max_k: usize,
         connection: Arc<lsp_server::Connection>,
         uri: Uri,
         version: i32,
         document_state: DocumentState,
-    ) -> anyhow::Result<()> {
+    ) -> anyhow::Result<BackgroundAnalysis> {
+        let max_k = self.max_k;
+        let latest_versions = self.latest_versions.clone();
         let mut grammar_config = Self::obtain_grammar_config_from_string(input, file_name)?;
         let ignored_unreachable_non_terminals = grammar_config
             .unreachable_non_terminals_to_ignore
@@ -277,7 +295,7 @@ impl Server {
         let grammar_config = grammar_config.clone();
         #[cfg(parol_verif)]
         verif_gate::spawned(version);
-        thread::spawn(move || match grammar_config.grammar_type {
+        Ok(Box::new(move || match grammar_config.grammar_type {
             GrammarType::LLK => {
                 #[cfg(parol_verif)]
                 let _verif_finished = verif_gate::enter(version);
@@ -285,8 +303,9 @@ impl Server {
                     eprintln!("check_grammar: errors from calculate_lookahead_dfas");
                     #[cfg(parol_verif)]
                     verif_gate::reach(version, verif_gate::BEFORE_PUBLISH);
-                    let _ =
-                        Self::notify_analysis_error(err, connection, &uri, version, document_state);
+                    Self::publish_if_latest(&latest_versions, &uri, version, || {
+                        Self::notify_analysis_error(err, connection, &uri, version, document_state)
+                    });
                 }
             }
             GrammarType::LALR1 => {
@@ -297,29 +316,50 @@ impl Server {
                     Ok((_, resolved_conflicts)) => {
                         #[cfg(parol_verif)]
                         verif_gate::reach(version, verif_gate::BEFORE_PUBLISH);
-                        let _ = Self::notify_resolved_conflicts(
-                            resolved_conflicts,
-                            connection,
-                            &uri,
-                            version,
-                        );
+                        Self::publish_if_latest(&latest_versions, &uri, version, || {
+                            Self::notify_resolved_conflicts(
+                                resolved_conflicts,
+                                connection,
+                                &uri,
+                                version,
+                            )
+                        });
                     }
                     Err(err) => {
                         eprintln!("check_grammar: errors from calculate_lookahead_dfas");
                         #[cfg(parol_verif)]
                         verif_gate::reach(version, verif_gate::BEFORE_PUBLISH);
-                        let _ = Self::notify_analysis_error(
-                            err,
-                            connection,
-                            &uri,
-                            version,
-                            document_state,
-                        );
+                        Self::publish_if_latest(&latest_versions, &uri, version, || {
+                            Self::notify_analysis_error(
+                                err,
+                                connection,
+                                &uri,
+                                version,
+                                document_state,
+                            )
+                        });
                     }
                 }
             }
-        });
-        Ok(())
+        }))
+    }
+
+    /// Publishes the diagnostics of a background analysis of `version` of the document `uri`,
+    /// unless a newer version of the document has arrived since the analysis was started.
+    /// The lock is held while publishing. Thus a newer version can't be registered (and its
+    /// diagnostics can't be published) between the version check and the publishing.
+    fn publish_if_latest(
+        latest_versions: &Mutex<HashMap<Uri, i32>>,
+        uri: &Uri,
+        version: i32,
+        publish: impl FnOnce() -> Result<(), Box<dyn Error>>,
+    ) {
+        let latest_versions = latest_versions
+            .lock()
+            .unwrap_or_else(PoisonError::into_inner);
+        if latest_versions.get(uri) == Some(&version) {
+            let _ = publish();
+        }
     }
 
     pub(crate) fn handle_open_document(
@@ -340,7 +380,7 @@ impl Server {
             params.text_document.version,
             connection.clone(),
         ) {
-            Ok(()) => {
+            Ok(background_analysis) => {
                 eprintln!("handle_open_document: ok");
                 #[cfg(parol_verif)]
                 verif_gate::main_window(params.text_document.version);
@@ -349,6 +389,9 @@ impl Server {
                     params.text_document.uri,
                     params.text_document.version,
                 )?;
+                // Only now, after the (so far empty) diagnostics of this version are published,
+                // the background analysis may run and publish its own diagnostics.
+                thread::spawn(background_analysis);
             }
             Err(err) => {
                 eprintln!("handle_open_document: error");
@@ -383,7 +426,7 @@ impl Server {
             params.text_document.version,
             connection.clone(),
         ) {
-            Ok(()) => {
+            Ok(background_analysis) => {
                 eprintln!("handle_change_document: ok");
                 #[cfg(parol_verif)]
                 verif_gate::main_window(params.text_document.version);
@@ -392,6 +435,9 @@ impl Server {
                     params.text_document.uri,
                     params.text_document.version,
                 )?;
+                // Only now, after the (so far empty) diagnostics of this version are published,
+                // the background analysis may run and publish its own diagnostics.
+                thread::spawn(background_analysis);
             }
             Err(err) => {
                 eprintln!("handle_change_document: error");
@@ -598,6 +644,10 @@ impl Server {
 
     fn cleanup(&mut self, uri: &Uri) {
         self.documents.remove(uri);
+        self.latest_versions
+            .lock()
+            .unwrap_or_else(PoisonError::into_inner)
+            .remove(uri);
     }
 
     fn apply_changes(&mut self, uri: &Uri, content_changes: &[TextDocumentContentChangeEvent]) {
